@@ -36,23 +36,26 @@ def replay_convolve(vals, oid):
 @harness(PROPERTY, "convolve_shape", functions=["ibldsp.fourier:convolve"], replay=replay_convolve,
          clause="FFT convolution: zero-pad to the fast size, inverse transform of the padded length, crop ('same' = centred, every parity)")
 def h_convolve(H):
-    for mode in ("full", "same"):
-        S = H.session(f"convolve.{mode}")
+    for mode, xdt in (("full", "float64"), ("same", "float64"), ("same", "int16"), ("full", "float32")):
+        S = H.session(f"convolve.{mode}" + ("" if xdt == "float64" else "." + xdt))
 
-        def body(it, mode=mode):
+        def body(it, mode=mode, xdt=xdt):
             nsx, nsw, rows = z3.Ints("nsx nsw rows")
             it.ctx.assume(z3.And(nsx >= 1, nsw >= 1, rows >= 1))
             H.input(nsx=nsx, nsw=nsw)
-            x = A.fresh_array("x", "float64", (rows, nsx))
+            x = A.fresh_array("x", xdt, (rows, nsx))
             w = A.fresh_array("w", "float64", (nsw,))
             nsopt = z3.Int("ns_optim")
+            if xdt != "float64":
+                mode_tag = mode
+                mode = f"{mode}.{xdt}"
 
             def optim(it_, a, k):
                 it_.ctx.oblige("ns_optim_fft.arg", term(a[0]) == nsx + nsw, "pre", "padded size is asked for nsx + nsw samples")
                 it_.ctx.assume(nsopt >= nsx + nsw)          # contract of ns_optim_fft (harness ns_optim_fft)
                 return SV(nsopt)
             it.session.contracts[F.ns_optim_fft] = optim
-            out = run_function(it, F.convolve, [x, w], {"mode": mode})
+            out = run_function(it, F.convolve, [x, w], {"mode": mode.split(".")[0]})
             log = it.ctx.fft_log
             kinds = [e["kind"] for e in log]
             it.ctx.oblige(f"convolve.transforms.{mode}", z3.BoolVal(kinds == ["rfft", "rfft", "irfft"]), "post")
@@ -62,7 +65,11 @@ def h_convolve(H):
                               "the inverse real transform returns exactly the padded length (otherwise it is not the inverse of the forward transform: odd fast sizes 3, 9, 27, ...)")
                 i, t = z3.Ints("i t")
                 for e, src, n0 in ((log[0], x, nsx),):
-                    it.ctx.oblige(f"convolve.zero_padding.{mode}", A.forall([i, t], lambda: z3.Implies(z3.And(i >= 0, i < rows, t >= 0, t < nsopt), e["in"]((i, t)) == z3.If(t < n0, src.read((i, t)), z3.RealVal(0)))), "post", assume=False)
+                    it.ctx.oblige(f"convolve.zero_padding.{mode}", A.forall([i, t], lambda: z3.Implies(z3.And(i >= 0, i < rows, t >= 0, t < nsopt), e["in"]((i, t)) == z3.If(t < n0, A.to_real(src.read((i, t))), z3.RealVal(0)))), "post", assume=False)
+                it.ctx.oblige(f"convolve.kernel_padding.{mode}", z3.And(z3.BoolVal(len(log[1]["in_shape"]) == 1), A.forall([t], lambda: z3.Implies(z3.And(t >= 0, t < nsopt), A.to_real(log[1]["in"]((t,))) == z3.If(t < nsw, w.read((t,)), z3.RealVal(0))))), "post",
+                              "the kernel enters the transform with its own values (whatever the signal's dtype), zero padded", assume=False)
+            if mode.split(".")[0] != mode:
+                return
             if mode == "full":
                 it.ctx.oblige("convolve.full.length", z3.And(A.T(out.shape[0]) == rows, A.T(out.shape[-1]) == nsx + nsw), "post", "as coded: nsx + nsw samples (direct convolution has nsx+nsw-1; the extra one is the zero padding)")
             else:
@@ -244,10 +251,20 @@ def native_convolve(pairs):
             if same.shape[-1] != nsx or not np.allclose(same, want, atol=1e-9):
                 bad.append(("same", nsx, nsw, j))
                 break
+        # integer and single-precision signals with a fractional kernel (the dtype of the signal must not leak into the kernel)
+        if nsx >= 3:
+            wf = np.hanning(nsw + 2)[1:-1] / max(np.hanning(nsw + 2)[1:-1].sum(), 1e-9)
+            for dt in (np.int16, np.int64, np.float32):
+                xi = (np.arange(2 * nsx).reshape(2, nsx) % 7 * 100 - 250).astype(dt)
+                wantf = np.array([np.convolve(r.astype(float), wf, "full") for r in xi])
+                gotf = F.convolve(xi, wf, "full")
+                if not np.allclose(gotf[:, :nsx + nsw - 1], wantf, atol=1e-3 if dt == np.float32 else 1e-6):
+                    bad.append(("full, %s signal with a fractional kernel" % dt.__name__, nsx, nsw))
+                    break
     return bad
 
 
-@bounded(PROPERTY, "native_spectral", bound="impulse basis (complete per length for a linear operator): convolve vs direct convolution for all (nsx, nsw) in [1,24]^2 + pairs whose padded size is 27, 81, 243 (thorough: [1,80]^2 + 300 sampled up to 300); "
+@bounded(PROPERTY, "native_spectral", bound="impulse basis (complete per length for a linear operator): convolve vs direct convolution for all (nsx, nsw) in [1,24]^2 (float64 impulses; int16 / int64 / float32 signals with a fractional kernel) + pairs whose padded size is 27, 81, 243 (thorough: [1,80]^2 + 300 sampled up to 300); "
          "ns_optim_fft vs brute force for 1..7000 + every table edge; lp+hp, bp=hp*lp, axes of 1-3-D arrays; dft/dft2 vs FFT for sizes <= 32; freduce/fexpand/fscale for n = 1..64",
          clause="numeric equality with the textbook definitions")
 def b_native(B):
